@@ -9,6 +9,9 @@ COMMON_NOTE = ("Trusted: Lean 4.33 kernel (axioms propext, Classical.choice, Quo
                "on every run), the hand-written model lean/LoomVerif/Model/* (modelled, not verified; tied to /repo "
                "by the correspondence run of this check: implementation and Lean twin execute the same DSL programs "
                "and must produce identical records), the Rust harness, the verif-hooks dumps, the orchestrator. "
+               "The reference semantics Spec/SC.lean and Spec/RC11.lean are specifications; the SC enumerator used as oracle is "
+               "PROVED sound and complete (Props/Oracle.lean: exploreV_sound/complete, audited by every check that uses "
+               "it); the RC11 enumerator is trusted. "
                "Not modelled: rt/scheduler.rs coroutines, unwinding mechanics, tracing, u16 clock overflow.")
 
 CLAIMS = {
@@ -57,18 +60,29 @@ CLAIMS = {
         ref="DESIGN.md §3 C04",
         technique="Lean 4 decision-logic theorems for the race detector + race oracles (RC11, SC+vector clocks) + decision replay"),
     "C05": dict(
-        text=("Lean 4 theorems: Exec.deadlock_iff_no_runnable (schedule reports deadlock iff no thread runnable/yielded and "
-              "some thread not terminated), Exec.schedule_no_thread, SC.deadlock_def. 'Deadlock iff reachable reference "
-              "deadlock' is evaluated against the enumerated reference semantics; decision replay on the twin (status "
-              "arrays of every schedule point). Known findings F5 F7 F9 F18 (false / missed deadlocks)."),
+        text=("Lean 4: Exec.deadlock_iff_no_runnable (schedule reports deadlock iff no thread is runnable/yielded and not "
+              "all have terminated), Exec.schedule_active_in_range, and - new - the SOUNDNESS half of the property as a "
+              "theorem for the lock fragment (spawn, join, lock, unlock, try_lock, cells, ifeq): "
+              "Deadlock.reported_deadlock_is_real / check_deadlock_is_real: whenever the twin's run (any path, any "
+              "schedule) or Builder::check loop ends with a deadlock panic, the run corresponds to a reference execution "
+              "that ends in a state where no thread is enabled and some thread has not finished; with the invariants "
+              "blocked_means_disabled, runnable_means_enabled, tryLock_never_blocked (Props/Deadlock.lean, built on the "
+              "refinement Props/Refine.lean). The completeness half and the other primitives are evaluated per program "
+              "against the reference (families of lock-order inversions, lost notifications, recv without send, park "
+              "without unpark with by-standers); every iteration replayed on the twin. Repaired on the way: F5/F6/F18 "
+              "(e4710d6), F9a (b682426), F8 (c00b711); known: F7, F19."),
         ref="DESIGN.md §3 C05",
         technique="Lean 4 theorem on schedule's deadlock test + reference reachability oracle + decision replay"),
     "C07": dict(
         text=("Lean 4 one-step laws for every twin state: Lock.try_exact, RwLock.try_exact_read/write, exclusion "
               "(RwWF invariant over arbitrary step sequences), release_wakes, handover_hb (release … acquire ⇒ "
               "causality ≤, over arbitrary interleaved steps), one-step simulation of Spec/SC (sim_tryLock/lock/unlock, "
-              "rwlock), refutation Lock.blocks_try_acquirers (F9). Evaluated: outcomes = reference outcomes on lock "
-              "families with cells in the critical sections; decision replay."),
+              "rwlock), Lock.never_blocks_try_acquirers / Lock.blocks_waiters (F9a repaired in b682426), and the "
+              "run-level REFINEMENT Refine.run_is_reference_execution / step_simulation (Props/Refine.lean): every run of "
+              "the twin over the lock fragment, for every path/schedule, is operation by operation an execution of the "
+              "reference semantics (values and blocking). Evaluated: outcomes = reference outcomes on lock families with "
+              "cells in the critical sections; decision replay. Known: F9 rest (a failing try needs a scheduling point "
+              "inside the holder's section)."),
         ref="DESIGN.md §3 C07",
         technique="Lean 4 one-step refinement lemmas and hand-over invariant + reference outcomes + decision replay"),
     "C08": dict(
